@@ -235,7 +235,7 @@ func (e *storeEnv) open(ctx context.Context) error {
 		e.rejected = err
 		return err
 	}
-	if err := st.Start(ctx); err != nil {
+	if err := startScoped(st.Start); err != nil {
 		return fmt.Errorf("Start: %w", err)
 	}
 	e.st = st
